@@ -1582,6 +1582,8 @@ def _sep_interp(P, u, E):
             ctx.note('%s is %r' % (T.label, s))
             return 1
         nots.add(s)
+        if st == 'A' and {',', '}'} <= nots:
+            raise Infeasible('behind an element stands `,` or `}`')
         ctx.note('%s is not %r' % (T.label, s))
         return 0
 
@@ -1606,7 +1608,7 @@ def _sep_interp(P, u, E):
                     if ctx.choose(2, 'skip(%s, "}")' % T.label) == 1:
                         T.meta['is'] = ','; nx.meta['is'] = '}'
                         ctx.note('%s is the trailing comma of the list' % T.label)
-                        ctx.emit('proto', 'close', st, _tk_fn(n), n.line, 'trailing-comma')
+                        ctx.emit('proto', 'close', st, _tk_fn(n), n.line, 'trailing-comma:' + str(T.label or '').split('#')[0].replace('tok-after-', ''))
                         raise NoReturn('error_tok', [T, "expected '%s'" % s], n.line)      # the path is kept: the event above is judged
             ctx.emit('proto', 'close', st, _tk_fn(n), n.line, 'ok')
         T.meta['is'] = s
@@ -1701,7 +1703,7 @@ def r0514(P, u, E, rep):
                     continue
                 if what == 'close':
                     ok = extra == 'ok'
-                    construct = 'closing-brace-behind-the-last-element' if ok else 'trailing-comma-before-the-closing-brace-rejected'
+                    construct = 'closing-brace-behind-the-last-element' if ok else 'trailing-comma-behind-%s-rejected' % extra.split(':', 1)[-1]
                     msg = ('%s demands the closing `}` directly behind the element although a trailing comma may stand there (C11 6.7.9: `{ initializer-list , }`): '
                            'a valid initializer such as `int x = {3,};` is rejected with "expected \'}\'"' % fn)
                 elif what == 'skip-comma':
